@@ -1,12 +1,15 @@
 package main
 
 import (
-	"fmt"
 	"bufio"
 	"flag"
+	"fmt"
 	"math"
 	"os"
+	"path/filepath"
 	"reflect"
+	"strconv"
+	"strings"
 
 	"github.com/zalf-rpm/Hermes2Go/hermes"
 )
@@ -92,10 +95,59 @@ func storage(g *hermes.GlobalVarsMain, which int) float64 {
 	return s
 }
 
+// irrigationFile reads the project's irrigation schedule for the plot of a batch line independently of the model's
+// reader: rows "field mm mg/l date" of irr_<project>.txt whose field id is the one the polygon file gives the plot.
+// Returns date text -> (mm, mg/l); nil when the plot has no file irrigation.
+func irrigationFile(work, line string) map[string][2]float64 {
+	var project, plot string
+	for _, tok := range strings.Fields(line) {
+		if strings.HasPrefix(tok, "project=") {
+			project = strings.TrimPrefix(tok, "project=")
+		}
+		if strings.HasPrefix(tok, "plotNr=") {
+			plot = strings.TrimPrefix(tok, "plotNr=")
+		}
+	}
+	dir := filepath.Join(work, "project", project)
+	pf, err := os.ReadFile(filepath.Join(dir, "poly_"+project+".txt"))
+	if err != nil {
+		return nil
+	}
+	field := ""
+	for _, l := range strings.Split(string(pf), "\n") {
+		t := strings.Fields(l)
+		if len(t) >= 6 && t[0] == plot && t[5] == "1" {
+			field = t[2]
+		}
+	}
+	if field == "" {
+		return nil
+	}
+	irf, err := os.ReadFile(filepath.Join(dir, "irr_"+project+".txt"))
+	if err != nil {
+		return nil
+	}
+	out := map[string][2]float64{}
+	for _, l := range strings.Split(string(irf), "\n") {
+		t := strings.Fields(l)
+		if len(t) >= 4 && t[0] == field {
+			mm, e1 := strconv.ParseFloat(t[1], 64)
+			mgl, e2 := strconv.ParseFloat(t[2], 64)
+			if e1 == nil && e2 == nil {
+				out[t[3]] = [2]float64{mm, mgl}
+			}
+		}
+	}
+	return out
+}
+
 func traceLine(work, line string, lineNo int, r *rng, waterEvery int) {
 	var day, nday dayAcc
 	prevDayEndZeit = -1
 	gwfcPrevZeit, gwfcPrevGRW, gwfcChanged = -10, math.NaN(), false
+	irrFile := irrigationFile(work, line)
+	irrByZeit := map[int][2]float64(nil)
+	irrSeen := 0
 	var pre struct {
 		g  hermes.GlobalVarsMain
 		l  hermes.WaterSharedVars
@@ -144,6 +196,27 @@ func traceLine(work, line string, lineNo int, r *rng, waterEvery int) {
 				}
 				if g.EffectiveIRRIG > 0 && d < dep-1e-9*(1+math.Abs(c1)) {
 					oracleFail("irrigation-n line=%d zeit=%d delta=%v deposition=%v", lineNo, zeit, d, dep)
+				}
+				// C02 "plus N in irrigation water": with irrigation from file the soil gains exactly amount x concentration
+				// of the file's entry for THIS date (read here independently of the model's reader)
+				if irrFile != nil {
+					if irrByZeit == nil {
+						irrByZeit = map[int][2]float64{}
+						for dateText, v := range irrFile {
+							if _, mas := g.Datum(dateText); mas > 0 {
+								irrByZeit[mas] = v
+							}
+						}
+					}
+					if v, ok := irrByZeit[zeit]; ok {
+						want := v[0] * v[1] * 0.01
+						if math.Abs(g.EffectiveIRRIG-v[0]/10) > 1e-12 || math.Abs(d-dep-want) > 1e-9*(1+math.Abs(c1)) {
+							oracleFail("irrigation-file-n line=%d zeit=%d water=%v file-mm=%v delta-minus-deposition=%v file-n=%v", lineNo, zeit, g.EffectiveIRRIG*10, v[0], d-dep, want)
+						}
+						irrSeen++
+					} else if g.EffectiveIRRIG > 0 {
+						oracleFail("irrigation-not-in-file line=%d zeit=%d water=%v", lineNo, zeit, g.EffectiveIRRIG*10)
+					}
 				}
 			}
 		case "nitro-pre":
@@ -230,6 +303,10 @@ func traceLine(work, line string, lineNo int, r *rng, waterEvery int) {
 						oracleFail("n-balance-gain line=%d zeit=%d steps=%d residual=%g", lineNo, zeit, day.steps, res)
 					}
 				}
+				// C02 "plus dissolved mineral fertiliser": the dissolved total never goes down on an ordinary day
+				if !day.excluded && g.UMS < nday.nUms-1e-9*(1+math.Abs(nday.nUms)) {
+					oracleFail("negative-dissolution line=%d zeit=%d ums-before=%v ums-after=%v dsumm=%v", lineNo, zeit, nday.nUms, g.UMS, g.DSUMM)
+				}
 				// C07: dissolved fertiliser never exceeds fertiliser applied (also across measurement-overwrite days)
 				if g.UMS > g.DSUMM+1e-9*(1+math.Abs(g.DSUMM)) || g.UMS < -1e-9 {
 					oracleFail("dissolved-exceeds-applied line=%d zeit=%d ums=%v dsumm=%v", lineNo, zeit, g.UMS, g.DSUMM)
@@ -286,5 +363,5 @@ func traceLine(work, line string, lineNo int, r *rng, waterEvery int) {
 	}
 	res := runProject(work, splitArgs(line))
 	hermes.VerifProbe = nil
-	emit(jobj{"k": "run", "line": lineNo, "success": res.Success, "err": res.Err, "days": days, "substeps": sub})
+	emit(jobj{"k": "run", "line": lineNo, "success": res.Success, "err": res.Err, "days": days, "substeps": sub, "file_irrigations_checked": irrSeen})
 }
